@@ -57,6 +57,8 @@ type CABehaviour struct {
 	// Window: validity window the CA stamps: "" = [now-60 s, now+validity] | forever = [0, infinity] |
 	// ahead = the CA's clock is 90 s ahead and it does not backdate | huge = valid until 2^63 s
 	Window string
+	// WrongKey: the CA certifies another public key than the one of the request (a mix-up at the CA)
+	WrongKey bool
 }
 
 // FakeCA implements csr.Signer: it really certifies the requested public key.
@@ -106,6 +108,9 @@ func (ca *FakeCA) Sign(ctx context.Context, req *proto.SSHCertificateSigningRequ
 	pub, _, _, _, err := ssh.ParseAuthorizedKey([]byte(req.PublicKey))
 	if err != nil {
 		return nil, nil, fmt.Errorf("fake CA: bad public key: %v", err)
+	}
+	if b.WrongKey {
+		pub = SSHPub("p256c")
 	}
 	n := b.NCerts
 	if n <= 0 {
